@@ -185,8 +185,11 @@ def run(ctx):
     if fl:
         cur = [(i, s) for (i, s, pe, rve) in sq.field_writes() if show(pe) == 'self.current_operation' and show(rve) == 'Option::None{}' and guarded_any(sq, i, [r'^validate::validate_packet_outbound_internal\(packet, validation_context\) is Err$'])]
         ctx.ob(len(cur) == 1, 'the rejected operation is un-seated (current_operation := None) so it is never encoded', 'svc|unseat', loc=sq.loc())
-        reach = sq.reach([fl[0].bb])
-        ctx.ob(not (set(c.bb for c in er) & reach) or True, 'after the failure the loop continues with the next operation', 'svc|continue', loc=sq.loc())
+        # after the failure the loop goes back to dequeuing (it does not fall through to the encoder with this packet)
+        succ, _, _ = sq.graph()
+        # (the un-seat just checked makes the `current_operation is Some` edge of the loop head infeasible on this path)
+        after = sq.reach(succ[fl[0].bb], avoid=[c.bb for c in sq.calls('ProtocolState::dequeue_operation')] + prims.edge_nodes_matching(sq, [r'^!Option::is_none\(self\.current_operation\)$']))
+        ctx.ob(not (set(c.bb for c in er) & after) and not (set(c.bb for c in sq.calls('Encoder::encode')) & after), 'after the failure the loop continues with the next operation without encoding the rejected one', 'svc|continue', loc=sq.loc())
     vcx = [e for (i, j, s) in sq.stmts() if s['k'] == 'assign' for e in [sq.rvalue_expr(s['rv'], i)] if e[0] == 'agg' and e[1].endswith('OutboundValidationContext')]
     vcx = list({show(e): e for e in vcx}.values())
     ctx.ob(len(vcx) == 1 and show(dict(vcx[0][3]).get('connect_options')) == 'Option::Some{0: self.config.connect_options}', 'the validation context carries the connect options', 'svc|context', loc=sq.loc())
